@@ -15,6 +15,7 @@ import (
 	"github.com/twmb/franz-go/pkg/kfake"
 	"github.com/twmb/franz-go/pkg/kgo"
 	"github.com/twmb/franz-go/pkg/kmsg"
+	"github.com/twmb/franz-go/pkg/kversion"
 
 	"verif/lib/netctl"
 )
@@ -79,7 +80,10 @@ type LogRecord struct {
 // records included) with raw Fetch requests sent by an uncontrolled client,
 // decoding record batches directly (independent of the client's fetch path).
 func ReadRaw(x *netctl.Exec, c *kfake.Cluster, topic string, partition int32) []LogRecord {
-	cl := Helper(x, c)
+	// Pin Fetch to v11: later versions address topics by id.
+	vers := kversion.Stable()
+	vers.SetMaxKeyVersion(1, 11)
+	cl := Helper(x, c, kgo.MaxVersions(vers))
 	defer cl.Close()
 	ctx, cancel := context.WithTimeout(context.Background(), 120*time.Second)
 	defer cancel()
